@@ -194,6 +194,10 @@ TARGETED = [
     dict(name="import-dotted-in-string-grammar", toks=T("reference l import m.n A : 'a' ;")),
     dict(name="reference-unregistered-language-used", toks=T("reference l as c A : x = [ c.X ] ;")),
     dict(name="reference-unregistered-language-unused", toks=T("reference a-b A : 'a' ;")),
+    dict(name="reference-builtin-textx-language-used", toks=T("reference l as c A : x = [ c.X ] ;"),
+         text="reference textX as t A: x=[t.Foo];"),
+    dict(name="reference-builtin-textx-language-class", toks=T("reference l as c A : x = [ c.X ] ;"),
+         text="reference textX as t A: x=[t.TextxRule];"),
     dict(name="user-class-not-used", toks=T("A : x = ID ;"), kw="unused_class"),
     dict(name="user-class-used", toks=T("A : x = ID ;"), kw="used_class"),
     dict(name="empty-grammar", toks=[]),
